@@ -117,6 +117,59 @@ CLAIMED = {
         note="Trusted: Coq kernel + vm_compute, translate/py2coq.py, harness (h11rig.py with library proxies, h11gen.py, http1e2e.py, streams.py, sched.py). h11's parser/serialiser are not modelled (received events and returned bytes are recorded oracle values); h11's state machine is modelled (LibH11.v, a port of h11/_state.py) and cross-checked against the real library after every call. HTTP/2 and both-worker coverage of this property comes from the C08/C09/C16 rigs. Open known finding F14 (application queue full at closure) is reported as KNOWN-FINDING.",
         technique="Coq proof (symbolic execution of the monadic models, exhaustive vm_compute over the h11 state space) + in-Coq differential correspondence",
     ),
+    "C04": dict(
+        text="Coq theorems about the HTTP/2 connection as a transition system (model.H2Send) whose reader labels are the events h2 "
+             "hands to _handle_events (request, DATA, END_STREAM, RST_STREAM, WINDOW_UPDATE, SETTINGS, PRIORITY on open / closed / "
+             "idle streams with parents, loss of the connection), interleaved in every way with the application tasks and the send "
+             "task: the dictionary / priority-tree operations that raise on a missing key are never reached with one (no exception "
+             "escapes the reader), the send task survives a stream left in the tree without a buffer, and an event or step on "
+             "stream s leaves every other stream's state untouched while a stream with data and window is still served.  Tied to "
+             "the code by step-by-step differential execution, and by byte-level fuzzing of the real stack (random bytes, mutated "
+             "HTTP/1, HTTP/2 and WebSocket sessions, grammar-generated rare HTTP/2 sequences around a victim stream, every input in "
+             "random segmentation, both server-loop flavours) judged by independent h11/h2 parsers.",
+        design="7/C04",
+        note="Trusted: Coq kernel + vm_compute, harness (h2send.py, c04.py, sched.py), h11/h2/wsproto as oracles of what is malformed. "
+             "The proof covers the HTTP/2 connection level only: byte parsing (h11, h2, hpack, wsproto) is not modelled, and 'malformed "
+             "HTTP/1 is answered with the hinted 4xx and closed' / 'HTTP/2 violations end with GOAWAY' are established by the "
+             "end-to-end oracles (sampling), hence partial there. F1, F2, F3, F4, F39 fixed (9f2fda3, 7522217, cf41a6c, 36b3339, "
+             "612d5c8). Modelled not verified: protocol/h2.py (_handle_events, _window_updated, _priority_updated, _create_stream, "
+             "_close_stream, _send_data).",
+        technique="Coq proof (inductive invariant: every registered buffer is in the priority tree; frame lemmas) + in-Coq differential correspondence + parser-oracle fuzzing",
+    ),
+    "C08": dict(
+        text="Coq theorems about a transition system of the HTTP/2 send path (StreamBuffer push/pop/drain/close, send_task, _send_data, "
+             "the Body/EndBody/StreamClosed branches of stream_send, _window_updated, StreamReset and Closed handling) whose labels are "
+             "the points at which the real tasks can be scheduled: for every interleaving and every client behaviour a stream's buffer "
+             "stays below HIGH + 2m (m the largest body message; HIGH/LOW regenerated from the source), no sender is left waiting on "
+             "a stream that can no longer send or on a closed connection, the send task is woken on close, steps on one stream leave "
+             "the others untouched and a stream with data and window is served regardless.  Tied to the code by step-by-step "
+             "differential execution of the real H2Protocol/h2/priority under explicit scheduling, and by end-to-end pressure sessions "
+             "(HTTP/2, HTTP/1 with a paused transport, WebSocket over HTTP/2).",
+        design="7/C08",
+        note="Trusted: Coq kernel + vm_compute, translate/py2coq.py (constants), harness (h2send.py, h2rig.py, sched.py, c08.py). h2's window "
+             "arithmetic and priority's next() enter the model as contracts validated at every step against the real libraries. The "
+             "transport-level half of the property (writer.drain / send_all high-water marks) is the runtime's and is only observed "
+             "end to end on the rig's paused transport: partial there. 'Returns promptly' is proved as 'the event the sender waits on is "
+             "set' (not_stuck); that the scheduler then runs the sender is the runtime's fairness. F6, F7/F22 fixed (28cda5a, 435ce46). "
+             "Modelled not verified: protocol/h2.py (StreamBuffer, send_task, _send_data, stream_send, _window_updated, _close_stream).",
+        technique="Coq proof (inductive invariants over all label sequences of an LTS) + in-Coq step-by-step differential correspondence",
+    ),
+    "C09": dict(
+        text="Coq theorems about the same transition system: every DATA frame written is non-empty and fits the stream window, the "
+             "connection window and the maximum frame size as they stand when it is written (along every run; the connection window "
+             "is never overdrawn); what is written for a stream is, in order, a prefix of what its application pushed, END_STREAM at "
+             "most once, only after everything was written, nothing after it; the send task is asleep only when no stream has data "
+             "and window or a pending END_STREAM (no lost wake-up), a stream with data and window is served whatever the others do, and "
+             "the send task cannot spin (a measure decreases at every iteration).  Tied to the code as for C08, plus end-to-end "
+             "sessions in which an independent h2 client is the flow-control oracle.",
+        design="7/C09",
+        note="Trusted: Coq kernel + vm_compute, harness (h2send.py, h2rig.py, sched.py, c09.py), the h2 client used as oracle. Liveness is "
+             "proved in its safety form (no state in which the send task sleeps while something is sendable; strict variant for the "
+             "loop); the scheduler's fairness is assumed. PRIORITY trees are the priority library's: the model takes next()'s pick as "
+             "an oracle input constrained to eligible streams (checked on every real pick), PRIORITY frames are exercised end to end "
+             "only. F5 fixed (5bb114b). Modelled not verified: protocol/h2.py send path.",
+        technique="Coq proof (inductive invariants + trace property + variant over an LTS) + in-Coq step-by-step differential correspondence",
+    ),
     "C13": dict(
         text="Coq theorems about ProtocolWrapper / _check_protocol: the protocol is a function of how the client opens the "
              "connection (ALPN h2, prior-knowledge preface, Upgrade: h2c without a body, WebSocket upgrade, else HTTP/1.x; h2c "
